@@ -65,6 +65,18 @@ class SetupEnv:
         self.ctx.inputs[name] = V.VInt(i)
         return SV(V.VInt(i))
 
+    def mset(self, name, elem_shape=None):
+        """a set-typed input: an arbitrary duplicate-free enumeration of its members"""
+        from .shapes import ListOf
+        from .val import MSet
+        t = z3.Const(name, V.Val)
+        self.ctx.inputs[name] = t
+        if elem_shape is not None:
+            assume_shape(self.p, ListOf(elem_shape), t)
+        else:
+            self.p.assume(V.is_VList(t))
+        return MSet(V.vl(t))
+
     def mlist(self, name, elem_shape=None):
         from .shapes import ListOf
         t = z3.Const(name, V.Val)
@@ -306,9 +318,17 @@ def verify(contract: Contract, src: SourceIndex = None, contracts=None, timeout_
     def run(p: Path):
         I = Interp(p, src)
         E = SetupEnv(p, ctx)
+        cvars = contract.closure_env(E) if hasattr(contract, "closure_env") else None
         args, kwargs = contract.setup(E)
+        fn_run = fn
+        if cvars is not None:
+            cenv = Env()
+            cenv.vars.update(cvars)
+            fn_run = Closure(fn.node, cenv, fn.module, fn.name, qualname=fn.qualname, is_async=fn.is_async)
+            cenv.vars.setdefault(fn.name, fn_run)      # a nested function can call itself through the enclosing scope
+            p.closure_env = cenv
         env = Env()
-        I.bind_args(fn, env, list(args), dict(kwargs))
+        I.bind_args(fn_run, env, list(args), dict(kwargs))
         names = dict(env.vars)
         A = Args({k: _lower_arg(v) for k, v in names.items()})
         pre = contract.requires(A)
@@ -320,7 +340,7 @@ def verify(contract: Contract, src: SourceIndex = None, contracts=None, timeout_
         ctx.entry_args = A
         p.entry_names = names
         p.entry_A = A
-        out = I.call_closure(fn, list(args), dict(kwargs))
+        out = I.call_closure(fn_run, list(args), dict(kwargs))
         return out
 
     try:
